@@ -21,9 +21,9 @@ import (
 func init() { register("C16", "model_checking", checkC16) }
 
 type cliInv struct {
-	Sub, Format, File, Target, Doc, Stdout  string
-	Massive, DryRun, Strict, Stray, Unknown bool
-	Exts                                    []string
+	Sub, Format, File, Target, Doc, Stdout            string
+	Massive, DryRun, Strict, Stray, Unknown, MTimeout bool
+	Exts                                              []string
 }
 
 type cliState struct {
@@ -40,6 +40,7 @@ func cliInvOf(v tla.Value) cliInv {
 	inv := cliInv{Sub: tla.S(r["sub"]), Format: tla.S(r["format"]), File: tla.S(r["file"]), Target: tla.S(r["target"]), Doc: tla.S(r["doc"]),
 		Stdout: tla.S(r["stdout"]), Massive: tla.B(r["massive"]), DryRun: tla.B(r["dryrun"]), Strict: tla.B(r["strict"]), Stray: tla.B(r["stray"]), Unknown: tla.B(r["unknown"])}
 	inv.Exts = tla.StrsOfSet(r["exts"])
+	inv.MTimeout = tla.B(r["mtimeout"])
 	return inv
 }
 
@@ -61,6 +62,9 @@ func (inv cliInv) argv() []string {
 	}
 	if inv.Massive {
 		a = append(a, "--massive")
+	}
+	if inv.MTimeout {
+		a = append(a, "--massive-timeout", "1ns")
 	}
 	switch inv.File {
 	case "dash":
@@ -304,7 +308,7 @@ func checkCLIState(r *evid.Run, bin string, pool *wproto.Pool, s *cliState) {
 	if !s.Exit0 && run.Exit != 0 && strings.TrimSpace(run.Stderr) == "" {
 		r.Mismatch("cli:no-diagnostic:"+s.Why+":"+inv.Sub, fmt.Sprintf("%s: exit=%d but nothing on stderr", desc, run.Exit), rec)
 	}
-	if !s.Called || inv.Sub == "template" {
+	if !s.Called || inv.Sub == "template" || inv.MTimeout {
 		if !s.Called && !sameStrs(before, after) {
 			r.Mismatch("cli:filesystem-touched-without-a-call:"+inv.Sub, fmt.Sprintf("%s: %v -> %v", desc, before, after), rec)
 		}
